@@ -11,13 +11,18 @@ THEOREMS = [
     'OpenHTF.TestObject.c09_deregistered_after',
     'OpenHTF.TestObject.c09_overlap_refused',
     'OpenHTF.TestObject.c09_reexecutable',
+    'OpenHTF.TestObjectConc.c09_at_most_one_execution_at_a_time',
+    'OpenHTF.TestObjectConc.c09_live_executors_le_one',
+    'OpenHTF.TestObjectConc.c09_concurrent_overlap_refused',
+    'OpenHTF.TestObjectConc.unlocked_check_lets_two_executions_overlap',
 ]
 PENDING = ['record finality (timestamps, dut_id default, metadata) is a decidable Lean predicate (TestObject.final) evaluated '
            'on every real record; it is not a theorem because the model has no clock']
 RULE = ('programs from the C01/C08 families x every subset of raising callbacks (<=3 callbacks) x histories of 1-3 '
         'consecutive execute() calls on ONE Test object, with an overlapping execute() attempted from inside a running '
         'phase; observed: callback arguments (identity), order, return value, record facts, Test.state, TEST_INSTANCES, '
-        'number of handlers on the openhtf logger')
+        'number of handlers on the openhtf logger; races: 2-3 threads x 1-2 execute() calls each on one Test under random '
+        'schedules (switch probability 0.1/0.4/0.8), order of lock / executor-slot effects')
 ASSUMPTIONS = ['time.time() is monotone while a test runs (start <= end comparisons)',
                'exits of execute() by an exception other than KeyboardInterrupt are outside "when execute() returns"']
 TRUSTED = ['harness/exec_common.py (run_history)', 'lean/OpenHTF/Driver/C09.lean']
@@ -25,17 +30,135 @@ CONST_PREFIXES = ['c09.']
 PROCS = 12
 
 
+def _run_race(case):
+  """n threads call execute() (reps times each) on ONE Test object under the cooperative scheduler"""
+  import logging
+  import threading
+  from harness import common, sched, sched_exec
+  sched_exec.install(False)
+  import openhtf as htf
+  from openhtf.core import test_descriptor
+  toks = []
+  names = {}
+
+  def me():
+    return names.get(threading.current_thread().name, 9)
+
+  class RaceTest(htf.Test):
+    # `self._executor` as a traced slot: the moment it is stored / cleared is the moment other threads can see it
+    @property
+    def _executor(self):
+      return self.__dict__.get('_ex')
+
+    @_executor.setter
+    def _executor(self, v):
+      self.__dict__['_ex'] = v
+      if self.__dict__.get('_trace'):
+        toks.append(('c' if v is not None else 'k') + str(me()))
+
+  class TracedLock(object):
+    def __init__(self, real):
+      self.real, self.depth = real, {}
+
+    def acquire(self, *a, **k):
+      got = self.real.acquire(*a, **k)
+      if got:
+        d = self.depth.get(me(), 0)
+        self.depth[me()] = d + 1
+        if d == 0:
+          toks.append('a%d' % me())
+      return got
+
+    def release(self):
+      d = self.depth.get(me(), 1) - 1
+      self.depth[me()] = d
+      if d == 0:
+        toks.append('r%d' % me())
+      self.real.release()
+
+    def __enter__(self):
+      self.acquire()
+      return self
+
+    def __exit__(self, *exc):
+      self.release()
+      return False
+
+  def ph1(test):
+    test.logger.info('one')
+
+  def ph2(test):
+    pass
+  test = RaceTest(*([ph1, ph2][:case.get('phases', 1)]))
+  recs = []
+  test.add_output_callbacks(recs.append)
+  test.configure(name='race')
+  test._lock = TracedLock(test._lock)
+  test.__dict__['_trace'] = True
+  results = []
+  h0 = len(logging.getLogger('openhtf').handlers)
+
+  def runner():
+    for _ in range(case.get('reps', 1)):
+      try:
+        test.execute()
+        results.append('returned')
+      except test_descriptor.InvalidTestStateError:
+        toks.append('x%d' % me())
+        results.append('refused')
+      except (sched.Deadlock, sched.SchedulerStuck):
+        raise
+      except BaseException as e:  # pylint: disable=broad-except
+        results.append('raised:' + type(e).__name__)
+
+  def body(s):
+    ths = []
+    for i in range(case['threads']):
+      t = threading.Thread(target=runner, name='race-%d' % i)
+      names[t.name] = i
+      ths.append(t)
+    for t in ths:
+      t.start()
+    for t in ths:
+      t.join()
+    return True
+  box, s = sched.run(sched.random_chooser(common.Rng('c09/%s' % case['rseed']), case.get('switch', 0.4)), body,
+                     max_steps=400000)
+  facts = []
+  if s.deadlock or 'sched_error' in box:
+    facts.append('R:deadlock')
+  else:
+    if test._executor is not None:
+      facts.append('R:executor-left')
+    if len(test_descriptor.Test.TEST_INSTANCES):
+      facts.append('R:registered-left')
+    if len(logging.getLogger('openhtf').handlers) != h0:
+      facts.append('R:handlers-left')
+    if len(recs) != results.count('returned'):
+      facts.append('R:record-count-mismatch')
+    if any(r.startswith('raised') for r in results):
+      facts.append('R:raised-other')
+  test_descriptor.Test.TEST_INSTANCES.clear()
+  return {'race': toks + facts, 'results': sorted(results)}
+
+
 def run_real(case):
+  if case.get('kind') == 'race':
+    return _run_race(case)
   return {'runs': ec.run_history(case)}
 
 
 def encode(case, obs):
+  if case.get('kind') == 'race':
+    return 'C09 RACE %d # %s' % (case['threads'], ' '.join(obs['race']))
   fake = {'tokens': obs['runs'][0] if obs['runs'] else []}
   head = c08.encode(case, fake).split(' # ')[0].replace('C08 ', 'C09 ', 1)
   return head + ' # ' + ' | '.join(' '.join(r) for r in obs['runs'])
 
 
 def classify(case, obs):
+  if case.get('kind') == 'race':
+    return 'race/%dthreads/%s' % (case['threads'], ','.join(obs['results']))
   return '%druns/%dcb/%s' % (len(case['runs']), len(case.get('callbacks') or []),
                               obs['runs'][0][0] if obs['runs'] else '?')
 
@@ -80,6 +203,10 @@ def gen_cases(rng, tier):
     c['runs'] = [{'overlap': r.random() < 0.5} for _ in range(r.choice([1, 2, 3]))]
     c['src'] = 'random'
     cases.append(c)
+  for i in range(60 if tier == 'quick' else 1500):
+    r = rng.derive('race%d' % i)
+    cases.append({'kind': 'race', 'threads': r.choice([2, 2, 3]), 'reps': r.choice([1, 1, 2]), 'phases': r.choice([1, 2]),
+                  'rseed': r.getrandbits(32), 'switch': r.choice([0.1, 0.4, 0.8])})
   return cases
 
 
@@ -93,8 +220,13 @@ MANIFEST = {
             'nothing; execute() returns True iff PASS; over ALL histories of begin/refused-begin/finish on one Test '
             'object the invariant "handlers = [running], registered = running" holds, so after every returned execute '
             'the Test holds no executor, is deregistered, has no handler left and can be executed again, and an '
-            'overlapping execute is refused without effect. Tie: real Test objects executed 1-3 times with an '
-            'overlapping execute() attempted from inside a phase, callbacks raising in every subset.',
+            'overlapping execute is refused without effect; for ANY number of threads calling execute() on one Test under '
+            'EVERY interleaving (lock / check / store executor / release / clear as separate steps, inductive '
+            'invariant) at most one executor is alive at a time and a thread that checks while another runs is '
+            'refused - with the counterexample theorem that the same program with the check outside the lock lets two '
+            'executions overlap. Tie: real Test objects executed 1-3 times with an overlapping execute() attempted '
+            'from inside a phase, callbacks raising in every subset; 2-3 threads racing execute() on one Test under '
+            'the cooperative scheduler (traced lock and executor slot replayed through the model).',
     'note': 'Trusted: Lean kernel + standard axioms; harness; Lean driver. PARTIAL: record finality (outcome/end time set, '
             'start<=end, every phase record complete and inside the test interval, dut_id default, metadata name+config, '
             'no running phase) is a decidable Lean predicate evaluated on every real record, not a theorem (the model '
